@@ -253,3 +253,140 @@ func observableAfter(readers map[*types.Var]map[*ssa.Function]bool, f *types.Var
 var deadStoreReviewed = map[string]string{
 	"parser.(*parser).scan:parser.insertSemicolon=false": "at end of input the flag is reset to false and the common tail of scan stores the local insertSemicolon, which is still false on this path: redundant, not lost",
 }
+
+func init() {
+	register(&Rule{ID: "DEAD-field-read", Props: []string{"C07", "C01"}, Min: 2,
+		Doc: "G (contradiction census, Engler's `beliefs`): a struct field that code reads and branches on, but that nothing in the module ever stores, is a decision that can only go one way - the author of the reader believed someone sets it. For every field of every struct type declared in packages otto and parser: if it is loaded somewhere (outside tests) there must be a store to it somewhere: an assignment, a composite literal that names it, or a positional literal of its struct. scope.eval is read to decide whether the bindings of `var` and function declarations are deletable (ES5 10.4.2: configurable in eval code) and was never set, so `eval('var x = 1'); delete x` failed. Fields filled from outside the module (decoded, reflected) are listed with the reason",
+		Run: ruleDeadFieldRead})
+}
+
+// deadFieldReviewed: fields read but legitimately never stored by module code.
+var deadFieldReviewed = map[string]string{
+	"stashReference.strict": "strict mode is not implemented (README: \"use strict\" parses and does nothing): every reference is created non-strict, the zero value; the readers are the TODO stubs of 8.7.2",
+}
+
+func ruleDeadFieldRead(c *Ctx, r *R) {
+	type acc struct {
+		loads, stores int
+		loadSite      string
+	}
+	fields := map[*types.Var]*acc{}
+	get := func(f *types.Var) *acc {
+		a := fields[f]
+		if a == nil {
+			a = &acc{}
+			fields[f] = a
+		}
+		return a
+	}
+	structOf := func(t types.Type) (*types.Named, *types.Struct) {
+		if p, ok := t.Underlying().(*types.Pointer); ok {
+			t = p.Elem()
+		}
+		n, ok := t.(*types.Named)
+		if !ok {
+			return nil, nil
+		}
+		st, ok := n.Underlying().(*types.Struct)
+		if !ok {
+			return nil, nil
+		}
+		return n, st
+	}
+	inModule := func(n *types.Named) bool {
+		if n == nil || n.Obj().Pkg() == nil {
+			return false
+		}
+		p := n.Obj().Pkg().Path()
+		return p == ottoPath || p == ottoPath+"/parser"
+	}
+	wholeStored := map[*types.Named]bool{}
+	for _, fn := range c.AllSrcFuncs("", "parser") {
+		for _, b := range fn.Blocks {
+			for _, ins := range b.Instrs {
+				switch x := ins.(type) {
+				case *ssa.FieldAddr:
+					n, st := structOf(x.X.Type())
+					if !inModule(n) {
+						continue
+					}
+					f := st.Field(x.Field)
+					for _, ref := range *x.Referrers() {
+						switch u := ref.(type) {
+						case *ssa.Store:
+							if u.Addr == ssa.Value(x) {
+								get(f).stores++
+							} else {
+								get(f).loads++ // address escapes as a value
+							}
+						case *ssa.UnOp:
+							a := get(f)
+							a.loads++
+							if a.loadSite == "" {
+								a.loadSite = c.Pos(instrPos(u))
+							}
+						default:
+							// address taken (passed on, method call on the field): could be written through it
+							get(f).stores++
+							get(f).loads++
+						}
+					}
+				case *ssa.Field:
+					n, st := structOf(x.X.Type())
+					if !inModule(n) {
+						continue
+					}
+					a := get(st.Field(x.Field))
+					a.loads++
+					if a.loadSite == "" {
+						a.loadSite = c.Pos(instrPos(x))
+					}
+				case *ssa.Store:
+					// a whole struct value stored from somewhere else than a local literal: every field may be set
+					if n, _ := structOf(x.Val.Type()); inModule(n) {
+						if _, isPtr := x.Val.Type().Underlying().(*types.Pointer); !isPtr {
+							if _, lit := x.Val.(*ssa.UnOp); !lit {
+								wholeStored[n] = true
+							}
+						}
+					}
+				}
+			}
+		}
+	}
+	n := 0
+	for f, a := range fields {
+		if a.loads == 0 {
+			continue
+		}
+		n++
+		owner := ""
+		for _, pkg := range []string{"", "parser"} {
+			p := c.Pkg(pkg)
+			if p == nil {
+				continue
+			}
+			for _, name := range p.Types.Scope().Names() {
+				if tn, ok := p.Types.Scope().Lookup(name).(*types.TypeName); ok {
+					if st, ok := tn.Type().Underlying().(*types.Struct); ok {
+						for i := 0; i < st.NumFields(); i++ {
+							if st.Field(i) == f {
+								owner = tn.Name()
+							}
+						}
+					}
+				}
+			}
+		}
+		key := owner + "." + f.Name()
+		if a.stores > 0 || f.Exported() {
+			continue // stored by the module, or part of the API: the host stores it
+		}
+		if why, ok := deadFieldReviewed[key]; ok {
+			r.ok("reviewed:"+key, a.loadSite, why)
+			continue
+		}
+		r.bad(key, a.loadSite, fmt.Sprintf("the field %s is read (%d times, first at %s) and never stored by any code of the module: every test of it goes the same way, so whatever it was meant to switch on cannot happen (scope.eval: bindings created by eval code are never deletable - `eval('var x = 1'); delete x` is false, ES5 10.4.2 / 10.5 configurableBindings)", key, a.loads, a.loadSite))
+	}
+	r.check(n >= 100, "census", "-", fmt.Sprintf("%d fields that are read were examined", n), fmt.Sprintf("only %d read fields found", n))
+}
